@@ -1,10 +1,11 @@
 #!/bin/bash
 # Runs the repository suite (plus the property's own check) for kept seeded changes whose meta.json has no suite result yet.
+# usage: tools/seed_suite.sh [parallelism]
 cd "$(dirname "$0")/.."
+P=${1:-1}
 for d in seeded/*/; do
   id=$(basename "$d"); prop=${id%%-*}
   if ! grep -q suite_with_change "$d/meta.json" 2>/dev/null; then
-    echo "=== $id"
-    python3 tools/seed_eval.py "$d" "$id" "$prop" "$prop" 2>&1 | grep -E "KEPT|REJECT" | cut -c1-200
+    echo "$d $id $prop $prop"
   fi
-done
+done | xargs -P "$P" -L 1 sh -c 'echo "=== $1"; python3 tools/seed_eval.py "$0" "$1" "$2" "$3" 2>&1 | grep -E "KEPT|REJECT" | cut -c1-200'
